@@ -46,7 +46,7 @@ theorem noParamAttrs_tail {x : FnArg} {xs : List FnArg} (h : noParamAttrs (x :: 
 
 theorem noParamAttrs_cons_recv (r) (rest : List FnArg) (kind : ReceiverKind) (h : noParamAttrs rest = true) :
     noParamAttrs (genFirstReceiver kind r :: rest) = true := by
-  cases kind <;> simp [genFirstReceiver, selfReceiverArg, implReceiverArg, noParamAttrs, h]
+  cases kind <;> simp [genFirstReceiver, selfReceiverArg, implReceiverArg, implReceiverWith, noParamAttrs, h]
 
 theorem noParamAttrs_rewriteFirst {kind : ReceiverKind} {deps : FnDeps} {inputs : List FnArg} {itrail : Bool}
     {ins : List FnArg} {tr : Bool} (hin : noParamAttrs inputs = true)
@@ -89,12 +89,12 @@ theorem noParamAttrs_insertImplRecv {kind : ReceiverKind} {ins0 : List FnArg} {t
     | [], _ => simp at h
     | [x], hx =>
       simp at h; rw [← h.1]
-      rw [noParamAttrs_cons_iff]; simp [hx, noParamAttrs, implReceiverArg]
+      rw [noParamAttrs_cons_iff]; simp [hx, noParamAttrs, implReceiverArg, implReceiverWith]
     | x :: y :: rest, hx =>
       simp at h; rw [← h.1]
       rw [noParamAttrs_cons_iff] at hx ⊢
       simp only [Bool.and_eq_true] at hx ⊢
-      exact ⟨hx.1, by simpa [noParamAttrs, implReceiverArg] using hx.2⟩
+      exact ⟨hx.1, by simpa [noParamAttrs, implReceiverArg, implReceiverWith] using hx.2⟩
 
 /-- the receiver rewriting introduces no parameter attributes -/
 theorem noParamAttrs_generateParams {kind : ReceiverKind} {deps : FnDeps} {inputs : List FnArg} {itrail : Bool}
